@@ -17,7 +17,7 @@ const NODE_CAP: u64 = 64 * 1024 * 1024;
 
 #[derive(Clone, Debug, Serialize, Deserialize, Default)]
 struct Plan {
-    /// "stream" | "exhaustive" | "fault" | "nodeloop" | "handover" | "nodeidle"
+    /// "stream" | "exhaustive" | "fault" | "nodeloop" | "handover" | "nodeidle" | "reuse"
     kind: String,
     /// true = 2-byte prefix (handshake), false = 4-byte (distribution)
     #[serde(default)]
@@ -129,10 +129,11 @@ impl Scenario for C05 {
             1 | 2 | 3 => "fault",
             4 | 5 => "nodeloop",
             6 => "handover",
-            7 => "nodeidle",
+            7 => if r.chance(1, 3) { "reuse" } else { "nodeidle" },
             _ => "stream",
         };
         let handshake = kind != "nodeloop" && kind != "handover" && kind != "nodeidle" && r.chance(1, 2);
+        let _ = "reuse may run in either mode";
         let n = match kind {
             "exhaustive" => r.range(1, 3) as usize,
             _ => r.range(1, 8) as usize,
@@ -215,6 +216,7 @@ impl Scenario for C05 {
                 "nodeloop" => nodeloop(&w, &p).await,
                 "handover" => handover(&w, &p).await,
                 "nodeidle" => nodeidle(&w, &p).await,
+                "reuse" => reuse(&w, &p).await,
                 _ => stream(&w, &p).await,
             }
         });
@@ -228,7 +230,7 @@ impl Scenario for C05 {
             components_stubbed: &["TCP socket (SimNet pipe)", "peer (byte feeder / collector)"],
             assumptions: &["TCP semantics: bytes arrive in order, unmodified, until close/reset", "allocation size measured per thread by a counting global allocator"],
             fault_prefixes: &["fault.", "net."],
-            expected_probes: &["probe.c05.eof_in_prefix", "probe.c05.eof_in_body", "probe.c05.eof_between_frames", "probe.c05.overcap_refused", "probe.c05.zero_len_frame", "probe.c05.len_65536", "probe.c05.handover_coalesced", "probe.c05.frame_above_16_mib", "probe.c05.idle_beyond_read_timeout", "probe.c05.prefix_in_two_pieces", "probe.c05.mode_switched_after_construction", "probe.c05.large_frame_that_is_no_message", "probe.c05.node_loop_without_timeout"],
+            expected_probes: &["probe.c05.eof_in_prefix", "probe.c05.eof_in_body", "probe.c05.eof_between_frames", "probe.c05.overcap_refused", "probe.c05.zero_len_frame", "probe.c05.len_65536", "probe.c05.handover_coalesced", "probe.c05.frame_above_16_mib", "probe.c05.idle_beyond_read_timeout", "probe.c05.prefix_in_two_pieces", "probe.c05.mode_switched_after_construction", "probe.c05.large_frame_that_is_no_message", "probe.c05.node_loop_without_timeout", "probe.c05.read_timed_out_inside_a_frame"],
         }
     }
 }
@@ -743,6 +745,76 @@ async fn nodeidle(w: &Arc<World>, p: &Plan) {
     let (we, _) = tokio::join!(feeder, reader);
     drop(we);
     w.ev("I done");
+}
+
+/// One FramedTransport, two streams: a read on the first stream times out in the middle of a frame (the
+/// peer stalls with the socket open), the transport is closed and connected to a fresh stream; what is read
+/// from the second stream is exactly what was written to it.
+async fn reuse(w: &Arc<World>, p: &Plan) {
+    use tokio::io::AsyncWriteExt;
+    let (msgs, expect) = expected_stream(p);
+    if msgs.is_empty() {
+        return;
+    }
+    let m = mode(p);
+    let mut r = Rng::new(p.fill_seed ^ 0x7e05e);
+    // first stream: some whole frames, then a frame cut somewhere (inside the prefix or the body)
+    let first_len = r.range(1, 40) as usize;
+    let first_body = r.bytes(first_len);
+    let first = if m == FrameMode::Handshake { wire::frame2(&first_body) } else { wire::frame4(&first_body) };
+    let cut = 1 + r.below(first.len() as u64 - 1) as usize;
+    let (mut we1, re1, _c1) = pipe(w, 0, EndCfg::default(), EndCfg { chunking: p.reader.chunking, ..Default::default() }, "U1");
+    let (dw1, _dr1, _c) = pipe(w, 0, EndCfg::default(), EndCfg::default(), "U1w");
+    let mut t = edp_client::transport::FramedTransport::new(Duration::from_millis(2_000));
+    t.connect(edp_client::verif::TcpStream::from_parts(Box::new(re1), Box::new(dw1)));
+    t.set_frame_mode(m);
+    let _ = we1.write_all(&first[..cut]).await;
+    match t.read().await {
+        Err(edp_client::Error::Timeout(_)) => w.stat("probe.c05.read_timed_out_inside_a_frame"),
+        other => {
+            w.violation("frame-error", format!("reuse: a read of a frame whose sender stalled after {} of {} bytes returned {:?} instead of a timeout", cut, first.len(), other.map(|b| b.len()).map_err(|e| e.to_string())));
+            return;
+        }
+    }
+    t.close();
+    drop(we1);
+    // second stream
+    // (a calm link: every frame arrives well within the transport's two seconds)
+    let (fwe, fre, _ctl) = pipe(w, 0, EndCfg::default(), EndCfg { chunking: p.reader.chunking, ..Default::default() }, "U2");
+    let (dw2, _dr2, _c) = pipe(w, 0, EndCfg::default(), EndCfg::default(), "U2w");
+    t.connect(edp_client::verif::TcpStream::from_parts(Box::new(fre), Box::new(dw2)));
+    t.set_frame_mode(m);
+    let w2 = w.clone();
+    let n = msgs.len();
+    let cut_every = if p.cut_every > 0 && p.cut_every < 100 { 100 } else { p.cut_every };
+    // pauses between pieces only where the whole stream still arrives within a fraction of the two seconds
+    let gap_ms = if cut_every > 0 && (expect.len() as u32 / cut_every) * p.gap_ms.min(2) > 400 { 0 } else { p.gap_ms.min(2) };
+    let feeder = async move {
+        let we = feed(&w2, fwe, expect, cut_every, gap_ms).await;
+        drop(we);
+    };
+    let reader = async {
+        let mut out = Vec::new();
+        for _ in 0..n {
+            out.push(t.read().await.map_err(|e| e.to_string()));
+        }
+        out
+    };
+    let (_, out) = tokio::join!(feeder, reader);
+    for (i, m) in msgs.iter().enumerate() {
+        match &out[i] {
+            Ok(b) if b == m => {}
+            Ok(b) => {
+                w.violation("frame-mismatch", format!("reuse: frame {} read from the second stream has {} bytes, {} were written (something of the first stream's unfinished frame survived close())", i, b.len(), m.len()));
+                return;
+            }
+            Err(e) => {
+                w.violation("frame-error", format!("reuse: frame {} of the second stream: {}", i, e));
+                return;
+            }
+        }
+    }
+    w.ev("U done");
 }
 
 /// What a node does with a fresh connection: a few handshake-mode frames through
